@@ -116,6 +116,13 @@ TickOutcome runTicks(Oomd::Oomd& o, int ticks, const std::function<void(int)>& b
     out.excFrames = vb::lastThrowFrames();
   }
   vb::onTick = nullptr;
+  // a descriptor that is not open was used or closed during the run: reported through the same channel as an escaping
+  // exception (every driver turns that into a violation "uncaught:use-of-closed-fd")
+  if (!out.escaped && !vb::badFdUses.empty()) {
+    out.escaped = true;
+    out.excType = "use-of-closed-fd";
+    out.excWhat = vb::badFdUses.front() + " (" + std::to_string(vb::badFdUses.size()) + " such call(s) in this run)";
+  }
   return out;
 }
 
